@@ -2,7 +2,7 @@
 import copy
 import numpy as np
 from lib import common, cards, runs, spec
-from corr import cache, scalevar
+from corr import cache, scalevar, runnerorder
 
 LEVEL = "proof"
 TRUSTED = ["Coq 8.16.1 kernel + vm_compute", "tools/corr/cache.py (harness)",
@@ -34,7 +34,7 @@ def equal_bits(a, b):
 
 def gen_case(rng, quick):
     pto = rng.choice([0, 1, 1, 2] if quick else [0, 1, 2, 2])
-    tmc = rng.choice([0, 0, 1, 2])
+    tmc = rng.choice([0, 0, 1, 2, 2, 3])
     th = dict(PTO=pto, PTODIS=pto, FNS="ZM-VFNS", TMC=tmc, MP=0.5, RenScaleVar=True, FactScaleVar=True, kcThr=rng.choice([1.0, 1.0, 0.5]))
     proc = rng.choice(["NC", "EM", "CC"])
     kinds = ["F2", "FL"] + (["F3"] if proc != "EM" else [])
@@ -44,6 +44,13 @@ def gen_case(rng, quick):
     pts = [copy.deepcopy(p) for p in rng.sample(POOL, rng.randint(3, 5))]
     if rng.random() < 0.5:
         pts.append(copy.deepcopy(pts[0]))                      # a duplicate
+    if tmc != 0:
+        # the point whose x is, bit for bit, the Nachtmann variable of another requested point: the corrected object at that point and
+        # the uncorrected one the first point needs internally live at the same (x, Q2)
+        p0 = pts[0]
+        mu = 0.5 ** 2 / p0["Q2"]
+        xi = float(2 * p0["x"] / (1 + np.sqrt(1 + 4 * p0["x"] ** 2 * mu)))
+        pts.insert(rng.randint(0, len(pts)), dict(x=xi, Q2=p0["Q2"]))
     hist = {}
     for n in names:
         ps = [copy.deepcopy(p) for p in pts]
@@ -108,6 +115,11 @@ def run(chk):
     chk.oblige("correspondence cache trace (code = model keyed by field name, the one history_independent covers)", not bad_name, str(bad_name[:1])[:700])
     bad3 = scalevar.run_scalevar(chk, 20 if quick else 200)
     chk.oblige("correspondence ScaleVariations (nothing remembered between nf values in the shared manager)", not bad3, str(bad3[:1])[:400])
+    bad4 = runnerorder.run_runnerorder(chk, 60 if quick else 600)
+    chk.oblige("correspondence Runner.get_result plan (order of evaluation, cache drops, slot of every request = RunnerOrder.plan)", not bad4, str(bad4[:1])[:400])
+    for b in bad4[:2]:
+        chk.violation("runner-plan:%d-points" % len(b["Q2"]), "Runner.get_result on points with Q2 = %s evaluates / drops in the order %s and returns the requests in the slots %s"
+                      % (b["Q2"], b["ops"], b["slots"]), dict(kind="runner-plan", Q2=b["Q2"]))
     patrol(chk, 10 if quick else 120)
     if chk.red() and not chk.violations:
         patrol(chk, 60)
